@@ -416,7 +416,7 @@ fn iter_exhaustive(ctx: &Ctx, props: Props, out: &mut ShardOut) {
                         }
                         for (write, clone_at) in [(false, 255u8), (true, (pat % (steps as u32 + 1)) as u8)] {
                             let mut h = setup.clone();
-                            h.push(Op::Iter(IterSpec { list: list as u8, fam, steps, pat, write, clone_at }));
+                            h.push(Op::Iter(IterSpec { list: list as u8, fam, steps, pat, write, clone_at, fin: ((pat + idx as u32) % 6) as u8 }));
                             let r = run_history(&cfg, KeyType::Tracked, &h, &opts, &mut out.cov);
                             out.notes.bump("iter-exhaustive-cases");
                             if !r.violations.is_empty() {
@@ -643,15 +643,37 @@ pub fn engine_suite(ctx: &Ctx) -> ShardOut {
             break;
         }
         let kind = *rng.pick(&kinds);
-        let cfg = random_cfg(kind, &mut rng, ctx.thorough);
+        let mut cfg = random_cfg(kind, &mut rng, ctx.thorough);
         let kt = keytype_for(prop, &mut rng);
-        let uni = universe_for(&cfg, &mut rng);
+        let mut uni = universe_for(&cfg, &mut rng);
+        let mut converted = false;
+        if kind == Kind::Lru && matches!(prop, "C01" | "C02" | "C03" | "C04") && rng.chance(1, 5) {
+            // a cache built by a conversion (possibly from input that repeats keys), or one
+            // without an eviction callback
+            if rng.chance(2, 3) {
+                let n = rng.range(0, 10);
+                let span = rng.range(1, 8);
+                cfg.init = (0..n).map(|_| rng.below(span) as u32).collect();
+                cfg.ctor = 3;
+                cfg.a = rng.below(3) as usize;
+                uni = (0..(span as u32 + 3)).collect();
+                converted = true;
+            } else {
+                cfg.no_cb = true;
+                cfg.ctor = 0;
+            }
+        }
         let mut n = (rng.range(ctx.hist_len as u64 / 4, ctx.hist_len as u64) as usize).max(4);
         if cfg.total() > 10 && !cfg!(miri) {
             // medium-sized configurations need longer histories to fill up and churn
             n *= 6;
         }
-        let ops = random_history(&cfg, &uni, n, &mut rng, opmix);
+        let mut ops = random_history(&cfg, &uni, n, &mut rng, opmix);
+        if converted {
+            // judge the freshly converted cache before anything else touches it
+            ops.insert(0, Op::Len);
+            ops.insert(1, Op::RemoveLru);
+        }
         let mut opts = RunOpts::new(props, uni.clone());
         opts.lookup_audit = props.c03 && rng.chance(1, 2);
         opts.seeds = [rng.next(), rng.next(), rng.next(), rng.next()];
